@@ -50,7 +50,7 @@ func c06(r *core.Run) {
 			spec := genlab.NamedSpec(stream, offSet(r), from, to)
 			b := genlab.Generate(r, thriftrw, fmt.Sprintf("%s-%d", stream, from), spec)
 			out, _ := b.BuildAll()
-			if strings.Contains(out, "verif/harness") && strings.Contains(out, "cannot find") {
+			if strings.HasPrefix(out, genlab.Unattributed) || (strings.Contains(out, "verif/harness") && strings.Contains(out, "cannot find")) {
 				r.Inconclusive("scratch module cannot be built: %s", tailStr(out, 400))
 			}
 			for _, pr := range b.Progs {
